@@ -145,7 +145,7 @@ var schemaURLs = []string{"http://json-schema.org/draft-04/schema#", "http://jso
 var schemaTypes = []string{"string", "number", "integer", "boolean", "array", "object", "null"}
 
 // any three digits are a legal response key for the meta-schema, not only assigned HTTP status codes
-var statusCodes = []string{"200", "201", "204", "400", "404", "500", "100", "599", "600", "999"}
+var statusCodes = []string{"200", "201", "204", "400", "404", "500", "100", "599", "600", "999", "0"}
 
 // "/x~1y" and "/x~0y" hold the two-character sequences literally (their pointer tokens are ~1x~01y, ~1x~00y);
 // "/x/y" and "/x~y" are what a second, wrong unescaping would turn them into
